@@ -25,7 +25,8 @@ EXPECT = {
         ["c.acl.Check", "r.t.Reset", "defer r.t.Stop", "r.stream.Send"],
         "Sub.pump: denied check before the send; timer armed only around Send (C07.never_sends_denied, C08.timer_armed_only_in_send)"),
     "subscribe.timer.stoppedAtCreation": (
-        ["time.NewTimer", "t.Stop", "go func{}"], "the send timer is stopped at creation: expiry enabled only while a send is pending (C08)"),
+        ["time.NewTimer", "t.Stop", "go func{}", "t.Reset", "t.Stop"],
+        "the send timer is stopped at creation and armed around the sync-marker send (D24 fix): expiry enabled only while a send is pending (C08)"),
     "subscribe.sender.loop": (
         ["go func{}", "c.queue.Next", "c.stream.Send", "s.sendSubscribeResponse", "isTargetDelete"],
         "Sub.pump: next, sync marker sent directly, other items through sendSubscribeResponse, then the target-delete test"),
